@@ -308,6 +308,9 @@ func init() {
 		if v.t == nil {
 			panic(targetPanic{v: iface{t: types.Typ[types.String], v: "sync/atomic: store of nil value into Value"}})
 		}
+		if old, ok := s.objs[argPtr(a[0])].(iface); ok && !types.Identical(old.t, v.t) {
+			panic(targetPanic{v: iface{t: types.Typ[types.String], v: "sync/atomic: store of inconsistently typed value into Value"}})
+		}
 		s.objs[argPtr(a[0])] = v
 		return nil
 	})
